@@ -1,6 +1,7 @@
 package main
 
 import (
+	"reflect"
 	"encoding/json"
 	"fmt"
 	"io"
@@ -752,6 +753,9 @@ func replayFileRT(line []byte, a *Acc) {
 			cp, cerr := m.Copy()
 			if cerr != nil || tagged.CanonGo(cp) != orig[i] {
 				one("filert:copy", fmt.Sprintf("Copy of %s gave %s (%v)", orig[i], tagged.CanonGo(cp), cerr))
+			} else if !reflect.DeepEqual(map[string]interface{}(cp), map[string]interface{}(m)) {
+				// same rendering, yet not deeply equal: an empty list that became a nil list, a changed number type, ...
+				one("filert:copy-not-deep-equal", fmt.Sprintf("Copy of %s renders the same but is not reflect.DeepEqual to the original: %#v vs %#v", orig[i], cp, m))
 			}
 		}
 	}
